@@ -78,6 +78,12 @@ def checkRoundTrip (rune spacers : Nat) (printed : List Char) (back : Outcome (N
   back == .ok (rune, spacers % 2 ^ (letters.length - 1)) &&
   printed == interleave spacers 0 letters
 
+/-- `s` was accepted as `(rune, spacers)` and that pair printed as `printed`
+(conclusion of `c32_spaced_print_parse`) -/
+def checkStringRoundTrip (s : List Char) (rune spacers : Nat) (printed : List Char) : Bool :=
+  let letters := s.filter isUpper
+  bij letters == rune + 1 && spacers < 2 ^ (letters.length - 1) && printed == normalize s
+
 /-- executable form of the C31 soundness conclusion for `SpacedRune::from_str`, on an
 implementation answer for input `s` -/
 def checkAnswer (s : List Char) : Outcome (Nat × Nat) → Bool
